@@ -128,10 +128,12 @@ class WorldProp(Prop):
         if mr.get("tape_left", 0) != 0:
             return f"model consumed fewer regressions than the implementation ({mr['tape_left']} left)"
         dev = b2f(mr.get("max_dev", 0))
-        # sanity check of the model's closed-form WLS against numpy (the run itself used numpy's values);
-        # at present-day epoch times doubles carry ~2e-7 s, and the normal equations lose several digits
-        if dev > (1e-6 if abs(req["scenario"].get("start", 0)) < 1e5 else 1e-3):
-            return f"closed-form regression differs from numpy by {dev}"
+        # sanity check of the exact weighted least-squares fit against numpy (the run itself used numpy's
+        # values): the difference, in units of the rounding error that the implementation's algorithm
+        # (uncentred normal equations, numpy.linalg.inv) admits for the data at hand; a few units are
+        # normal (the largest seen on the unchanged tree is about 50), a wrong formula gives millions
+        if dev > 1000:
+            return f"weighted least-squares fit differs from numpy by {dev:.3g} units of admissible rounding"
         return None
 
     def tag(self, req, reply):
